@@ -51,6 +51,8 @@ func runC12(c *Ctx) {
 		"pkcs7.Pad(b, n) returns a buffer whose length is a positive multiple of n (its arithmetic is not decided here), so CryptBlocks in GPPPEncrypt receives whole blocks",
 		"SPEC: MS-GPPREF 2.2.1.1.4 AES-256 key 4e9906e8fcb66cc9faf49310620ffee8f496e806cc057990209b09a433b66c1b, CBC, all-zero IV, PKCS#7 padding, UTF-16LE plaintext, base64 text",
 	}
+	r.Explanation += crySxExplain
+	r.Assumptions = append(r.Assumptions, crySxAssume)
 	x := &c12{cry: newCry(c)}
 	x.guard(c12R1, "R1 analysis", "", x.effects)
 	x.guard(c12R2, "R2 analysis", "", x.gpp)
@@ -586,7 +588,7 @@ func (x *c12) keyWriters() {
 }
 
 // side checks GPPPEncrypt (enc) or GPPPDecryptBytes (!enc).
-func (x *c12) side(fn *ssa.Function, enc bool) {
+func (x *c12) sideSyn(fn *ssa.Function, enc bool) {
 	name := x.P.FuncName(fn)
 	crypts := invokes(fn, "CryptBlocks")
 	cc := name + ": one CryptBlocks call"
